@@ -13,6 +13,9 @@ GEN_FAMILIES = {
     "gen_statements": ({"Bound": 3}, {"Bound": 5}),
 }
 
+# the same families through spec/Walk.tla: design-level WalkCorrect and the expected visit log per program
+WALK_FAMILIES = {"Walk/walk_" + k[len("gen_"):]: v for k, v in GEN_FAMILIES.items()}
+
 ASSUME = [
     "TLC 1.8.0 and the CommunityModules Json module",
     "token -> text rendering and AST -> record projection of the harness (harness/render.go, project.go)",
@@ -150,7 +153,7 @@ CHECKS = {
     "C07": {"run": lambda ctx: run_c07(ctx), "level": "model_checking"},
     "C08": {"run": run_c08, "level": "model_checking"},
     "C10": {"run": lambda ctx: prog_like(ctx, "C10", fam(ctx, list(GEN_FAMILIES), {"gen_plant": {}, "ParseCheck/parse_corrupt:operators": {"BaseFamily": '"operators"', "EditMenu": 22 if ctx.tier == "thorough" else 4}}), soups=200000 if ctx.tier == "thorough" else 20000), "level": "model_checking"},
-    "C11": {"run": lambda ctx: prog_like(ctx, "C11", prune=1000 if ctx.tier == "thorough" else 24), "level": "model_checking"},
+    "C11": {"run": lambda ctx: prog_like(ctx, "C11", families=WALK_FAMILIES, prune=1000 if ctx.tier == "thorough" else 24), "level": "model_checking"},
     "C12": {"run": run_c12, "level": "model_checking"},
     "C13": {"run": run_c13, "level": "model_checking"},
 }
